@@ -143,7 +143,10 @@ SplitOf(po, kd, rt, pb, rg, a, r) ==
   ELSE [den |-> 1, num |-> [i \in 1..Len(kd) |-> 0]]
 
 (* accepted = admitted and the shares are numbers (a zero denominator is 0/0 = NaN in the code, *)
-(* which then fails its own sum check)                                                        *)
+(* which then fails its own sum check). Deliberate deviation: the ensure! of the units (exact   *)
+(* `<=` of drivetrain and generator against a share that is 1 ulp high, SOC window guards of   *)
+(* the battery, surplus_frac = 1 + 1 ulp) are not modelled - such steps are rejections, which  *)
+(* the property does not judge; the trace spec counts them as drift_verdict.                   *)
 WithDef(a, r) == [a EXCEPT !.def_out = DefOut(a, r), !.def_regen = DefRegen(a, r)]
 Accepts(po, kd, rt, pb, rg, a, r) == Admit(a, r) /\ SplitOf(po, kd, rt, pb, rg, WithDef(a, r), r).den > 0
 
